@@ -531,6 +531,28 @@ def _check_clip(case, route) -> Result:
         )
         r.info = {"pico": pico_text, "clipped": clip_text}
 
+    # --- nothing is left beyond the border: exact (not epsilon-band) test on the curve extrema of every remaining path
+    try:
+        after, _ = _pico_leaves(clip_text, vb, eps)
+    except Exception:
+        after = []
+    X0, Y0, X1, Y1 = vb[0], vb[1], vb[0] + vb[2], vb[1] + vb[3]
+    for k, lf in enumerate(after):
+        if lf.bounds is None or not lf.drawn:
+            continue
+        bx0, by0, bx1, by1 = lf.bounds
+        slack = 2e-3 + 2e-6 * max(abs(v) for v in (X0, Y0, X1, Y1, bx0, by0, bx1, by1))  # the engine computes in float32
+        over = max(X0 - bx0, Y0 - by0, bx1 - X1, by1 - Y1)
+        if over > slack:
+            classes.append("overhang-detected")
+            r.bad(
+                "beyond-border",
+                f"path #{k} of the clipped document reaches {over:.6g} beyond the viewBox {tuple(vb)} (its curve bounds are {tuple(round(v, 6) for v in lf.bounds)}): "
+                f"it was not cut at the border; clipped={clip_text[:600]}   picosvg before: {pico_text[:600]}",
+            )
+            r.info = {"pico": pico_text, "clipped": clip_text}
+            break
+
     # --- rendering
     stats = _render_compare(pico_text, clip_text, r)
     if r.rejected:
